@@ -15,6 +15,7 @@ RULE = ("cases = (schema spec S, plain value v) with S % v defined; for every w 
         "reference acceptor on decode(S % v) vs the spec of S. Distinct by (abstract spec shape, value kind); non-trivial = >=1 constraint.")
 ASSUMPTIONS = ["pinned floats: w within tolerance of v but not equal are UNJUDGED by the reference cross-check",
                "NaN-containing values excluded"]
+REACH_FILES = ['d42/substitution/_substitutor.py', 'd42/substitution/_validator.py']
 TIERS = {"quick": dict(shards=16, cases=5000), "thorough": dict(shards=16, cases=70000)}
 
 
